@@ -55,6 +55,8 @@ def run(out, tier):
     r = vlib.require_ok(vlib.tlc(D, "MCReload", workers=8, timeout=1800), "Reload: JudgedByAValueInEffect")
     out.add_tlc(r, "MCReload exhaustive: 1 reloader installing 2 further values (static and dynamic) x 2 emitters x 2 emissions x 3 callsites, every interleaving of "
                    "write-lock / store / unlock / per-callsite re-fold / MAX_LEVEL with gate / interest load / value read; invariant JudgedByAValueInEffect")
+    # the registration race model exhibits known finding F20 (a collector is used for a callsite it was never offered)
+    out.extra["f20_counterexample_in_model"] = (vlib.tlc(D, "MCRegistrationRace", cfg="MCRegistrationRace_F20", workers=4, timeout=600).kind == "invariant")
     rng = random.Random(vlib.seed() * 7 + 12)
     behs = []
     for sc in scenarios(rng, 40 if quick else 400):
